@@ -24,7 +24,7 @@ def run(repo, tier) -> Result:
     from ..driver import check_calculate_driver, check_resume
 
     check_calculate_driver("C15", res, repo, want=("R-SKIP", "R-SWEEP"))
-    check_resume("C15", res, repo.method("hexital.core.indicator", "Indicator", "_find_calc_index"), "self.candles", "membership")
+    check_resume("C15", res, repo.method("hexital.core.indicator", "Indicator", "_find_calc_index"), "self.candles", "membership", repo=repo)
     cas = shipped_analyses(repo, res)
     check_taint("C15", res, repo, cas, branches_too=False)
     res.rule("R-TRIM", floor=3)
